@@ -519,22 +519,27 @@ class FnTranslator:
         if len(operands) == 2:
             return self.exprs(operands, env, lambda vals: k(
                 self.cmp1(e.ops[0], operands[0], vals[0][0], vals[0][1], operands[1], vals[1][0], vals[1][1], e), "bool"))
-        # a < b < c  is  a < b and b < c  with b evaluated once: the middle operands must be pure
-        mids = [self.pure_expr(o, env) for o in operands[1:-1]]
+        # a < b < c  is  a < b and b < c  with b evaluated once.  a and b are always evaluated (in this order, they may
+        # need a bind); the later operands are evaluated only while the chain is still true: the ones that are used
+        # twice (neither first, second nor last) must be pure
+        def with_first_two(vals):
+            (c0, t0), (c1, t1) = vals
+            mids = {1: (c1, t1)}
+            for j in range(2, len(operands) - 1):
+                mids[j] = self.pure_expr(operands[j], env)
 
-        def part(i):
-            def f(env2, k2):
-                def with_left(lc, lt):
+            def part(i):
+                def f(env2, k2):
+                    lc, lt = (c0, t0) if i == 0 else mids[i]
+
                     def with_right(rc, rt):
                         return k2(self.cmp1(e.ops[i], operands[i], lc, lt, operands[i + 1], rc, rt, e), "bool")
-                    if i + 1 < len(operands) - 1:
-                        return with_right(*mids[i])
+                    if i + 1 in mids:
+                        return with_right(*mids[i + 1])
                     return self.expr(operands[i + 1], env2, with_right)
-                if i == 0:
-                    return self.expr(operands[0], env2, with_left)
-                return with_left(*mids[i - 1])
-            return f
-        return self.short_circuit([part(i) for i in range(len(e.ops))], env, k, e, True)
+                return f
+            return self.short_circuit([part(i) for i in range(len(e.ops))], env, k, e, True)
+        return self.exprs(operands[:2], env, with_first_two)
 
     def e_BoolOp(self, e, env, k):
         def part(o):
